@@ -6,14 +6,16 @@ from ..main import run_rule
 from ..flow import resolver, peel, show, guards_of, rel_fact, const_defs
 from ..facts import AnchorMissing, op_const_int
 
-LEVEL = ("enumerates every narrow integer operation (i32 / unsigned products, sums, differences, "
-         "divisions, narrowing conversions) in the arithmetic propagators, the affine view, the "
-         "arithmetic constraints, the optimisation procedures and num_ext, with the provenance of each "
-         "operand; sites with a local safety argument are discharged automatically (constant ±small, "
-         "multiplier ∈ {−1,1}, non-zero constant divisor, widening cast, unsigned difference under a "
-         "dominating comparison), every other site must be in the committed table arith_sites.json as "
-         "SAFE(bound argument) or FINDING(failing input). A new or changed unguarded operation is "
-         "reported. Does not decide that results equal unbounded arithmetic when no site overflows")
+LEVEL = ('enumerates every narrow integer operation (i32 / unsigned products, sums, differences, '
+         'divisions, narrowing conversions) in the arithmetic propagators, the affine view, the '
+         'arithmetic constraints, the optimisation procedures and num_ext, with the provenance of each'
+         ' operand; sites with a local safety argument are discharged automatically (constant ±small, '
+         'multiplier ∈ {−1,1}, non-zero constant divisor, widening cast, unsigned difference under a '
+         'dominating comparison), every other site must be in the committed table arith_sites.json as '
+         'SAFE(bound argument) or FINDING(failing input). A new or changed unguarded operation is '
+         'reported. Narrowing casts of signed 64/128-bit quantities are sites wherever they occur in '
+         'the library (also in the trailed storage the propagators keep their sums in). Does not '
+         'decide that results equal unbounded arithmetic when no site overflows')
 TECHNIQUE = "static analysis: enumeration of arithmetic sites with operand provenance + guarded-subtraction / divisor rules over rustc MIR"
 
 SCOPE = ("/propagators/arithmetic/", "/propagators/element.rs", "/variables/affine_view.rs",
